@@ -171,6 +171,6 @@ def subchecks(tier):
     big = tier == "thorough"
     subs = []
     for code, (fam, cat, proto) in refb.MODELS.items():
-        subs.append(Sub(f"type={fam}", make_body(f"type={fam}"), strategy=strat(code), n=12_000 if big else 250,
+        subs.append(Sub(f"type={fam}", make_body(f"type={fam}"), strategy=strat(code), n=12_000 if big else 500,
                         shards=4 if big else 1, shrink_budget=120))
     return subs
